@@ -256,12 +256,25 @@ func checkC05(p *Prog, r *Report) {
 		parts := strings.Split(l, "|")
 		r.Fail("R5", "leak:fn:"+parts[0]+"|lock:"+parts[1], parts[2], "a lock acquired while handling an inbound message may still be held when the handler returns: the next message wedges")
 	}
-	for _, cyc := range lo.Cycles() {
-		var names []string
+	// a cycle wedges the reader goroutine as soon as one of its locks is taken while handling a message,
+	// even if the opposite order is taken by an application call (AddEntity against the removal cascade):
+	// the order graph is built over all functions and filtered on the locks of the inbound tree
+	loAll := BuildLockOrder(p, p.RepoFnsWithWrappers("spine", "model", "util", "api"))
+	for _, cyc := range loAll.Cycles() {
+		var names, wit []string
+		inbound := false
 		for _, e := range cyc {
 			names = append(names, e.From)
+			wit = append(wit, e.Witness)
+			if lo.Nodes[e.From] {
+				inbound = true
+			}
 		}
-		r.Fail("R5", "cycle:"+strings.Join(names, ","), "", "lock order cycle in the inbound call tree")
+		if !inbound {
+			continue
+		}
+		sort.Strings(names)
+		r.Fail("R5", "cycle:"+strings.Join(names, ","), "", "lock order cycle involving a lock taken in the inbound call tree: "+strings.Join(wit, " ; "))
 	}
 	for _, s := range lo.Selfs {
 		r.Fail("R5", "self:"+s.From, "", s.Witness)
@@ -293,7 +306,7 @@ func checkC05(p *Prog, r *Report) {
 			}
 		}
 	}
-	if len(lo.Leaks) == 0 && len(lo.Cycles()) == 0 && len(lo.Selfs) == 0 && nBlock == 0 {
+	if len(lo.Leaks) == 0 && len(loAll.Cycles()) == 0 && len(lo.Selfs) == 0 && nBlock == 0 {
 		r.Pass("R5", "inbound-tree", "", fmt.Sprintf("%d functions: locks paired, %d order edges acyclic, no blocking primitive", len(treeFns), len(lo.Edges)))
 	}
 	r.Assumes("taint is context-insensitive except that callee entry facts are intersected over wire-carrying call sites only",
